@@ -107,6 +107,11 @@ func typedLiteral(r *rand.Rand, s *model.Schema, t *model.TypeRef, depth int, na
 	case "Int64":
 		return r.Int63n(1<<45) - (1 << 44), true
 	case "Float", "Float64":
+		if t.Name == "Float64" && r.Intn(6) == 0 {
+			// magnitudes that every writer prints in exponent form
+			big := []model.RawLit{{Text: "1e21", Value: 1e21}, {Text: "5e22", Value: 5e22}, {Text: "1e-7", Value: 1e-7}, {Text: "2E-5", Value: 2e-5}, {Text: "-3e300", Value: -3e300}, {Text: "7.5e-9", Value: 7.5e-9}}
+			return big[r.Intn(len(big))], true
+		}
 		switch r.Intn(5) {
 		case 0:
 			return model.RawLit{Text: "1", Value: int64(1)}, true
